@@ -685,6 +685,43 @@ example :
       some [("x", ⟨some 1, some 60, some 7⟩), ("x", ⟨some 1, some 60, some 7⟩), ("w", {})] := by
   refine ⟨by decide, by decide, by decide, by decide, by decide, by decide⟩
 
+/-- **the run ends normally** exactly as far as the contig check allows: if every contig with alignments is known to the
+VCF (or `--skip-missing-contigs` is given), `--ploidy` is at least 2 and the read sets are what `ReadSetReader` delivers for
+`get_variant_information`'s positions (alleles 0/1 at positions with phase information: `Covered`, cf.
+`variant_positions_have_phase_info`), then no exception of `prepare_haplotag_information` is reachable and the output is complete. -/
+theorem haplotag_succeeds {α} (cfg : Config) (contigs : List (ContigIn α)) (unplaced : List (Aln α)) (hp : 2 ≤ cfg.ploidy)
+    (hvcf : ∀ c ∈ contigs, c.alns = [] ∨ c.inVcf = true ∨ cfg.skipMissing = true)
+    (hcov : ∀ c ∈ contigs, ∀ s ∈ c.samples, ∀ r ∈ s.2, Covered s.1 r) :
+    ∃ out, haplotag cfg contigs unplaced = .ok out := by
+  obtain ⟨w, hw⟩ := haplotagLoop_ok cfg (selectContigs contigs cfg.regions) (fun t ht =>
+    ⟨hvcf _ (mem_of_mem_selectContigs ht), prepareAll_no_error hp _ (hcov _ (mem_of_mem_selectContigs ht))⟩)
+  exact ⟨_, by unfold haplotag haplotagPlaced; rw [hw]⟩
+
+/-- the hypotheses of `haplotag_succeeds` are satisfiable (read `x` of the example below) -/
+example : ∃ out, haplotag (α := Nat) ⟨2, 50000, false, false, false, none, false⟩
+    [⟨[⟨0, "x", false, false, false, 5, 40, none, {}⟩], true,
+      [([(10, (7, [0, 1])), (20, (7, [1, 0]))], [⟨"x", 5, none, [⟨10, 0, 30⟩, ⟨20, 1, 30⟩]⟩])]⟩] [] = .ok out := by
+  apply haplotag_succeeds _ _ _ (by decide)
+  · intro c hc
+    simp only [List.mem_cons, List.mem_nil_iff, or_false] at hc
+    subst hc
+    exact Or.inr (Or.inl rfl)
+  · intro c hc s hs r hr
+    simp only [List.mem_cons, List.mem_nil_iff, or_false] at hc
+    subst hc
+    simp only [List.mem_cons, List.mem_nil_iff, or_false] at hs
+    subst hs
+    simp only [List.mem_cons, List.mem_nil_iff, or_false] at hr
+    subst hr
+    intro v hv
+    simp only [List.mem_cons, List.mem_nil_iff, or_false] at hv
+    rcases hv with rfl | rfl <;> decide
+
+/-- conversely the only other exit of the loop: a contig with alignments that the VCF does not know, without the option -/
+example : (match haplotag (α := Nat) ⟨2, 50000, false, false, false, none, false⟩
+      [⟨[⟨0, "y", false, false, false, 1, 30, none, {}⟩], false, []⟩] [] with
+    | .ok _ => none | .error e => some e) = some (.contigNotInVcf 0) := by decide
+
 /-- tags cross samples (finding F71) on the faithful model: the two dictionaries are keyed by read name / barcode only.
 Sample 2's read `x` ties (its alleles 1,0 agree once with each haplotype of sample 1's phasing and it is not even asked
 for), sample 2's read `n` has no variants; both alignments are written with the decision taken for SAMPLE 1's read `x`
